@@ -45,7 +45,9 @@ let kind_of = function
   | s -> failwith ("kind " ^ s)
 
 let event_of tok =
-  let nn s = nat_of_int (int_of_string s) in
+  (* an event on a descriptor that is not a node of the graph (the harness writes -1) is not an event of
+     the model: reject the line instead of aliasing it to node 0 *)
+  let nn s = let i = int_of_string s in if i < 0 then failwith ("unknown descriptor in " ^ tok) else nat_of_int i in
   let bb s = (s = "1") in
   match String.split_on_char '.' tok with
   | ["XB"; n] -> ExB (nn n)
@@ -70,6 +72,7 @@ let event_of tok =
 let () =
   iter_lines (fun l ->
     match split_ws l with
+    | id :: _ :: _ :: "u" :: _ -> Printf.printf "%s UNJUDGED\n" id  (* outside the model's symmetric key: oracle only *)
     | id :: sn :: sk :: smode :: sroot :: sc0 :: snodes :: sd0 :: strace :: rest ->
       (try
         let sel = match platform_field rest with Some spec -> " sel=" ^ select_of spec | None -> "" in
@@ -125,14 +128,25 @@ let () =
                ms := max !ms (int_of_nat (inflight_src g st'));
                md := max !md (int_of_nat (inflight_dst g st'));
                go st' tr' (i + 1)) in
-        match go (init c d0) tr 0 with
+        (* pt=<node>: the destination reference existed before the call and pointed at that node *)
+        let pretag = List.fold_left (fun acc f ->
+          if String.length f > 3 && String.sub f 0 3 = "pt=" then Some (nat_of_int (int_of_string (String.sub f 3 (String.length f - 3)))) else acc) None rest in
+        let st0 = let s0 = init c d0 in (match pretag with Some _ -> { s0 with tag = pretag } | None -> s0) in
+        match go st0 tr 0 with
         | Error i ->
           Printf.printf "%s REJ %d %s\n" id i (List.nth toks i)
         | Ok st ->
           let ret = match st.returned with Some true -> "1" | Some false -> "0" | None -> "-" in
           let tg = match st.tag with Some t -> string_of_int (int_of_nat t) | None -> "-" in
           let pres d = sort_uniq_ints (List.map int_of_nat (present_nodes g d)) in
-          let cr = if ret = "1" then show_ints (pres (List.concat (List.map (fun r ->
+          (* copy_result is the final content only for mt_consistent graphs (C01_copy_result); otherwise the
+             outcome depends on the schedule (known finding twin-digest-exists) and is not compared *)
+          let keys i = List.sort_uniq compare (List.filter_map (fun x ->
+            let j = int_of_nat x in if j < n && foreign.(j) then None else Some (if j < n then dkey.(j) else -1)) succ.(i)) in
+          let non_mt = ref false in
+          for i = 0 to n - 1 do for j = i + 1 to n - 1 do
+            if dkey.(i) = dkey.(j) && keys i <> keys j then non_mt := true done done;
+          let cr = if !non_mt then "-" else if ret = "1" then show_ints (pres (List.concat (List.map (fun r ->
                      copy_result g d0 (nat_of_int (n + 1)) (nat_of_int r)) (root :: xroots)))) else "-" in
           let gauges = if ret = "1" then Printf.sprintf "ms=%d md=%d" !ms !md else "ms=- md=-" in
           Printf.printf "%s ACC ret=%s tag=%s dst=%s cr=%s %s%s\n" id ret tg (show_ints (pres st.dst)) cr gauges sel
